@@ -19,7 +19,7 @@ import ast
 import z3
 
 from ..core import seed, PKG, Ob, PROVED, REFUTED, FAULT, try_replay
-from ..pyvc import (Exec, Ctx, Obj, Opt, NONE, ExcVal, Builtin, TypeRef, Seq, GenError, LoopSpec, Closure, verify_function, discharge)
+from ..pyvc import (Exec, Ctx, Obj, Opt, NONE, ExcVal, Builtin, TypeRef, Seq, GenError, LoopSpec, Closure, verify_function, discharge, accumulators)
 from ..contracts import frontend as FE
 from ..contracts import model as M
 from .. import smt
@@ -339,9 +339,11 @@ def obligations():
         def init(ex, ctx, seq):
             return {}
 
+        names = accumulators(mk_exec(facts).find_def("_elementwise_wrapper.outer"), 0)["carried"]  # (value accumulator, dimension accumulator)
+
         def inv(ex, ctx, ghost, k, seq):
             kk = k + 1  # the loop runs over args[1:], k elements of it done = kk args folded
-            f, d = ctx.env["factor"], ctx.env["dim"]
+            f, d = ctx.env[names[0]], ctx.env[names[1]]
             return z3.And(kk >= 1, kk <= M.nargs(e), f == MFv(e, kk), z3.Not(MFr(e, kk)), z3.Or(M.v_is_any(f), M.d_equiv(d, MFd(e, kk))),
                           M.v_wf(f), M.v_kind(f) != M.SYMB)
 
@@ -362,8 +364,11 @@ def obligations():
         def init(ex, ctx, seq):
             return {}
 
+        roles = accumulators(mk_exec(facts).find_def("_collect_common_dimension"), 0)
+        lname, dname = roles["appended"][0], [n for n in roles["carried"] if n not in roles["appended"]][0]
+
         def inv(ex, ctx, ghost, k, seq):
-            L, dim = ctx.env["factors"], ctx.env["dim"]
+            L, dim = ctx.env[lname], ctx.env[dname]
             dn = dim.is_none if isinstance(dim, Opt) else (z3.BoolVal(True) if dim is NONE else z3.BoolVal(False))
             dv = dim.val if isinstance(dim, Opt) else (M.DIMENSIONLESS if dim is NONE else dim)
             return z3.And(k >= 0, k <= M.nargs(e), L == CL(e, k), z3.Not(CFr(e, k)), dn == z3.Not(CFs(e, k)),
@@ -371,7 +376,7 @@ def obligations():
 
         def step(ex, ctx, ghost, elem, k, seq):
             return {}, cl_step(e, k) + cf_step(e, k) + [monotone(CFr, e, k + 1)]
-        return LoopSpec(inv=inv, step=step, init=init, modifies=("factors",))
+        return LoopSpec(inv=inv, step=step, init=init, modifies=(lname,))
 
     def post_common(ex, ctx, out, info):
         n = M.nargs(e)
@@ -423,12 +428,14 @@ def obligations():
         def init(ex, ctx, seq):
             return {}
 
+        fl = accumulators(mk_exec(facts).find_def("_collect_function"), 0)["appended"][0]
+
         def inv(ex, ctx, ghost, k, seq):
-            return z3.And(k >= 0, k <= M.nargs(e), ctx.env["factors"] == CL(e, k), z3.Not(FFr(e, k)))
+            return z3.And(k >= 0, k <= M.nargs(e), ctx.env[fl] == CL(e, k), z3.Not(FFr(e, k)))
 
         def step(ex, ctx, ghost, elem, k, seq):
             return {}, cl_step(e, k) + ff_step(e, k) + [monotone(FFr, e, k + 1)]
-        return LoopSpec(inv=inv, step=step, init=init, modifies=("factors",))
+        return LoopSpec(inv=inv, step=step, init=init, modifies=(fl,))
 
     run("_collect_function", [M.K_FUNC], loop_specs={"_collect_function": {0: func_loop()}})
 
